@@ -52,7 +52,7 @@ set_option maxRecDepth 1000000 in
 /-- the handler functions the analysis does not accept, by name -/
 theorem css_unanalysed :
     (Gen.cssFuncs.map (·.name)).filter (fun f => !cssClosed.contains f) =
-      ["BackgroundHandler", "BorderSideRadiusHandler", "FilterHandler", "FontHandler", "GridHandler", "TransformHandler"] := by decide
+      ["FilterHandler", "TransformHandler"] := by decide
 
 /-- the hostile bytes are outside the alphabet of the clean regexps -/
 theorem inertQ_excludes : ∀ c ∈ [92, 60, 62, 64, 59, 123, 125], Re.inRanges c inertQ = false := by decide
@@ -96,7 +96,7 @@ theorem C18_handler_functions_clean (f : String) (hf : f ∈ cssA.closedFns) (k 
   exact hall f hf k (Nat.le_refl _) v h
 
 /-- **C18, the table**: for every property of the default table whose handler is accepted — all but
-    the fourteen of `css_table_unanalysed` — and every value, `css.GetDefaultHandler(prop)(value)`
+    the two of `css_table_unanalysed` (filter, transform) — and every value, `css.GetDefaultHandler(prop)(value)`
     is true only if the value holds no backslash (so no CSS escape), no `<` or `>`, no `@`, and no `;`, `{`
     or `}` (so it cannot end the declaration or the block it is written into) -/
 theorem C18_handlers_clean (prop v : Bytes) (fn : String)
@@ -118,8 +118,7 @@ set_option maxRecDepth 1000000 in
 /-- the properties of the table whose handler the analysis does not accept -/
 theorem css_table_unanalysed :
     (Gen.defaultStyleHandlers.filter fun e => !cssA.closedFns.contains e.2).map (·.1) =
-      [b!"background", b!"border-bottom-left-radius", b!"border-bottom-right-radius",
-       b!"border-top-left-radius", b!"border-top-right-radius", b!"filter", b!"font", b!"grid", b!"transform"] := by decide
+      [b!"filter", b!"transform"] := by decide
 
 set_option maxRecDepth 1000000 in
 /-- non-vacuity: `color` is in the table, its handler is accepted, and it accepts something -/
@@ -138,7 +137,7 @@ def cssUnanalysedProps : List Bytes :=
 
 /-- **the matcher `AllowStyles(prop)` installs when it is given none** — the default handler of
     `prop`, or the reject-everything handler for a property outside the table — accepts clean values
-    only, for every property but the fourteen of `css_table_unanalysed` -/
+    only, for every property but the two of `css_table_unanalysed` (filter, transform) -/
 theorem default_matcher_cleanOnly (prop : Bytes) (hprop : prop ∉ cssUnanalysedProps) :
     CleanOnly (mkStylePolicy defaultHandler {} prop) := by
   intro v hv
